@@ -256,7 +256,7 @@ func nworkers() int {
 
 // expandAll runs the menu of every state of the frontier on worker processes; results come back indexed
 // by frontier position, so that merging is independent of scheduling.
-func expandAll(p *eng.Solo, def *checkDef, frontier []*state, menu menuLevel) ([]*stateOut, bool) {
+func expandAll(p *eng.Solo, def *checkDef, frontier []*state, menuOf func(*state) menuLevel) ([]*stateOut, bool) {
 	outs := make([]*stateOut, len(frontier))
 	var next atomic.Int64
 	var wg sync.WaitGroup
@@ -294,7 +294,7 @@ func expandAll(p *eng.Solo, def *checkDef, frontier []*state, menu menuLevel) ([
 							return
 						}
 					}
-					b, _ := json.Marshal(wReq{I: i, Text: st.text, Files: st.files, Menu: int(menu), Start: start})
+					b, _ := json.Marshal(wReq{I: i, Text: st.text, Files: st.files, Menu: int(menuOf(st)), Start: start})
 					pr.in.Write(append(b, '\n'))
 					n, lastJ, done := -1, start-1, false
 					var lastOp string
@@ -374,7 +374,10 @@ func runBFS(p *eng.Solo, def *checkDef) {
 	var frontierIdx []int
 	var seedNames []string
 	for si, s := range Seeds {
-		if s.Tier == 1 && !thorough {
+		if s.Tier >= 1 && !thorough {
+			continue
+		}
+		if s.Tier == 2 && !def.BoardsOnly {
 			continue
 		}
 		if def.BoardsOnly && !strings.Contains(s.Text, "layers:") && !strings.Contains(s.Text, "scenarios:") {
@@ -403,10 +406,18 @@ func runBFS(p *eng.Solo, def *checkDef) {
 
 	for d := 1; d <= len(lv); d++ {
 		L := lv[d-1]
-		if L.maxSeedB > 0 || L.miniOnly {
+		if L.maxSeedB > 0 || L.miniOnly || d >= 2 {
 			var f2 []*state
 			var i2 []int
 			for k, st := range frontier {
+				if Seeds[st.seed].Tier == 2 {
+					// generated board-tree seeds: full menu at depth 1, mini menu from mini-reached states at depth 2
+					if d == 2 && st.mini {
+						f2 = append(f2, st)
+						i2 = append(i2, frontierIdx[k])
+					}
+					continue
+				}
 				if (L.maxSeedB == 0 || (len(Seeds[st.seed].Text) <= L.maxSeedB && Seeds[st.seed].Files == nil)) && (!L.miniOnly || st.mini) {
 					f2 = append(f2, st)
 					i2 = append(i2, frontierIdx[k])
@@ -420,7 +431,15 @@ func runBFS(p *eng.Solo, def *checkDef) {
 			exhaustive = false
 			break
 		}
-		outs, complete := expandAll(p, def, frontier, L.menu)
+		if len(frontier) == 0 {
+			break
+		}
+		outs, complete := expandAll(p, def, frontier, func(st *state) menuLevel {
+			if Seeds[st.seed].Tier == 2 && d >= 2 {
+				return menuMini
+			}
+			return L.menu
+		})
 		var nextF []*state
 		var nextI []int
 		var levelEvals int64
